@@ -321,6 +321,8 @@ class Evaluator:
             val = heap.read_field(fkey, ty, v.term)
             if is_ref(ty) and ('f', fkey) not in heap.d:
                 val.py = 'H0'       # read from an array not written since entry
+            if isinstance(ty, TFunc):
+                val.py = Static(('fieldcall', fkey), recv=None)     # a callable stored in a field: called through its assumed contract
             return val
         a = what
         if isinstance(a, (types.FunctionType,)):
